@@ -57,7 +57,7 @@ var codecs = map[string]*codec{
 		encode:  func(v any, out io.Writer) error { return v.(*channel.State).Encode(out) },
 		decode:  func(r io.Reader) (any, error) { s := new(channel.State); return s, s.Decode(r) },
 		project: func(w *world, v any) any { return w.pState(v.(*channel.State)) },
-		site:    "channel.State.Decode",
+		site:    "channel.(*State).Decode",
 	},
 	"Allocation": {
 		abs:     absOf[absAlloc],
@@ -65,7 +65,7 @@ var codecs = map[string]*codec{
 		encode:  func(v any, out io.Writer) error { return v.(*channel.Allocation).Encode(out) },
 		decode:  func(r io.Reader) (any, error) { s := new(channel.Allocation); return s, s.Decode(r) },
 		project: func(w *world, v any) any { return w.pAlloc(v.(*channel.Allocation)) },
-		site:    "channel.Allocation.Decode",
+		site:    "channel.(*Allocation).Decode",
 	},
 	"Balances": {
 		abs:     absOf[[][]int64],
@@ -73,7 +73,7 @@ var codecs = map[string]*codec{
 		encode:  func(v any, out io.Writer) error { return v.(*channel.Balances).Encode(out) },
 		decode:  func(r io.Reader) (any, error) { s := new(channel.Balances); return s, s.Decode(r) },
 		project: func(w *world, v any) any { p := pBals(*v.(*channel.Balances)); return &p },
-		site:    "channel.Balances.Decode",
+		site:    "channel.(*Balances).Decode",
 	},
 	"SubAlloc": {
 		abs:     absOf[absSub],
@@ -81,7 +81,7 @@ var codecs = map[string]*codec{
 		encode:  func(v any, out io.Writer) error { return v.(*channel.SubAlloc).Encode(out) },
 		decode:  func(r io.Reader) (any, error) { s := new(channel.SubAlloc); return s, s.Decode(r) },
 		project: func(w *world, v any) any { p := w.pSub(v.(*channel.SubAlloc)); return &p },
-		site:    "channel.SubAlloc.Decode",
+		site:    "channel.(*SubAlloc).Decode",
 	},
 	"Params": {
 		abs:     absOf[absParams],
@@ -89,7 +89,7 @@ var codecs = map[string]*codec{
 		encode:  func(v any, out io.Writer) error { return v.(*channel.Params).Encode(out) },
 		decode:  func(r io.Reader) (any, error) { s := new(channel.Params); return s, s.Decode(r) },
 		project: func(w *world, v any) any { return w.pParams(v.(*channel.Params)) },
-		site:    "channel.Params.Decode",
+		site:    "channel.(*Params).Decode",
 	},
 	"Transaction": {
 		abs:     absOf[absTx],
@@ -97,7 +97,7 @@ var codecs = map[string]*codec{
 		encode:  func(v any, out io.Writer) error { return v.(*channel.Transaction).Encode(out) },
 		decode:  func(r io.Reader) (any, error) { s := new(channel.Transaction); return s, s.Decode(r) },
 		project: func(w *world, v any) any { return w.pTx(v.(*channel.Transaction)) },
-		site:    "channel.Transaction.Decode",
+		site:    "channel.(*Transaction).Decode",
 	},
 	"WalletAddrMap": {
 		abs:     absOf[absMap],
@@ -105,7 +105,7 @@ var codecs = map[string]*codec{
 		encode:  func(v any, out io.Writer) error { return v.(*wallet.AddressDecMap).Encode(out) },
 		decode:  func(r io.Reader) (any, error) { s := new(wallet.AddressDecMap); return s, s.Decode(r) },
 		project: func(w *world, v any) any { p := w.pWMap(*v.(*wallet.AddressDecMap)); return &p },
-		site:    "wallet.AddressDecMap.Decode",
+		site:    "wallet.(*AddressDecMap).Decode",
 	},
 	"WalletAddrMapArray": {
 		abs:     absOf[[]absMap],
@@ -113,7 +113,7 @@ var codecs = map[string]*codec{
 		encode:  func(v any, out io.Writer) error { return v.(*wallet.AddressMapArray).Encode(out) },
 		decode:  func(r io.Reader) (any, error) { s := new(wallet.AddressMapArray); return s, s.Decode(r) },
 		project: func(w *world, v any) any { p := w.pWArr(v.(*wallet.AddressMapArray).Addr); return &p },
-		site:    "wallet.AddressMapArray.Decode",
+		site:    "wallet.(*AddressMapArray).Decode",
 	},
 	"WireAddrMap": {
 		abs:     absOf[absMap],
@@ -121,7 +121,7 @@ var codecs = map[string]*codec{
 		encode:  func(v any, out io.Writer) error { return v.(*wire.AddressDecMap).Encode(out) },
 		decode:  func(r io.Reader) (any, error) { s := new(wire.AddressDecMap); return s, s.Decode(r) },
 		project: func(w *world, v any) any { p := w.pNMap(*v.(*wire.AddressDecMap)); return &p },
-		site:    "wire.AddressDecMap.Decode",
+		site:    "wire.(*AddressDecMap).Decode",
 	},
 	"WireAddrMapArray": {
 		abs:     absOf[[]absMap],
@@ -129,7 +129,7 @@ var codecs = map[string]*codec{
 		encode:  func(v any, out io.Writer) error { return v.(*wire.AddressMapArray).Encode(out) },
 		decode:  func(r io.Reader) (any, error) { s := new(wire.AddressMapArray); return s, s.Decode(r) },
 		project: func(w *world, v any) any { p := w.pNArr(*v.(*wire.AddressMapArray)); return &p },
-		site:    "wire.AddressMapArray.Decode",
+		site:    "wire.(*AddressMapArray).Decode",
 	},
 }
 
